@@ -293,6 +293,11 @@ fn judge_history(reader: &str, m: &Mutation, got: &[WalRecoveredTransaction], lo
             vfail!(format!("C11/{reader}/accepted-history-with-orphaned-frames-inside"), "{m:?} (first affected byte {at} of {}): the reader returned Ok with {} transactions covering {frames_returned} frames; {frames_inside} intact frames lie before the last commit marker", log.seg.len(), got.len());
         }
     }
+    // an LSN hole INSIDE the accepted history: a committed transaction between two returned ones
+    // is gone and the reader had the evidence (the positions) in hand
+    if let Some(i) = (1..got.len()).find(|i| got[*i].commit.first_lsn.as_u64() != got[*i - 1].commit.last_lsn.as_u64() + 1) {
+        vfail!(format!("C11/{reader}/accepted-history-with-an-lsn-hole"), "{m:?} (first affected byte {at} of {}): the reader returned Ok with {} transactions; transaction {i} starts at LSN {} but transaction {} ends at LSN {}", log.seg.len(), got.len(), got[i].commit.first_lsn.as_u64(), i - 1, got[i - 1].commit.last_lsn.as_u64());
+    }
     // a contiguous run of the committed history that starts later: the leading transactions
     // are gone and the reader (which is given no anchor) returns the rest
     if !got.is_empty() && got.len() < log.history.len() {
@@ -464,10 +469,18 @@ pub struct CaseSeg {
     pub rotate_after: Vec<bool>,
     /// (file pick, mutation applied inside that file)
     pub muts: Vec<(u16, Mutation)>,
+    /// per transaction: end the writer session after it (close the epoch, reopen the store and
+    /// take a fresh writer epoch at the recovered tip, as a restarting host does)?
+    #[serde(default)]
+    pub new_session_after: Vec<bool>,
 }
 
 fn case_seg() -> impl Strategy<Value = CaseSeg> {
-    (prop::collection::vec(prop::bool::weighted(0.45), 2..8), prop::collection::vec((any::<u16>(), mutation()), 16..40)).prop_map(|(rotate_after, muts)| CaseSeg { rotate_after, muts })
+    (prop::collection::vec((prop::bool::weighted(0.45), prop::bool::weighted(0.4)), 2..8), prop::collection::vec((any::<u16>(), mutation()), 16..40)).prop_map(|(per_txn, muts)| CaseSeg {
+        rotate_after: per_txn.iter().map(|x| x.0).collect(),
+        new_session_after: per_txn.iter().map(|x| x.1).collect(),
+        muts,
+    })
 }
 
 fn d(label: &str) -> [u8; 32] {
@@ -479,6 +492,8 @@ struct SegLog {
     files: Vec<(String, Vec<u8>)>,
     side: std::collections::BTreeMap<String, Vec<u8>>,
     history: Vec<WalRecoveredTransaction>,
+    /// writer sessions (epochs) the log was written in
+    sessions: usize,
 }
 
 fn build_seg_log(ctx: &Ctx, c: &CaseSeg) -> Result<SegLog, Fail> {
@@ -490,13 +505,11 @@ fn build_seg_log(ctx: &Ctx, c: &CaseSeg) -> Result<SegLog, Fail> {
     let r = (|| -> Result<SegLog, Fail> {
         let herr = |what: &str, e: String| Fail::new("C11/harness/store-level-build", format!("{what}: {e}"));
         let mut store = FilesystemWalStore::open(&root, WalSegmentId::from_raw(1)).map_err(|e| herr("open", format!("{e:?}")))?;
-        let epoch = WriterEpochId::from_hash(d("c11:epoch"));
-        store
-            .acquire_writer_epoch(WriterEpochRequest { epoch_id: epoch, storage_fencing_token: d("c11:fence"), process_identity: d("c11:process"), host_identity: d("c11:host"), started_at_lsn: Lsn::from_raw(0), previous_epoch_id: None, previous_epoch_final_commit_digest: None, lease_or_lock_evidence: d("c11:lock") })
-            .map_err(|e| herr("epoch", format!("{e:?}")))?;
+        let mut epoch: WriterEpochId = store.acquire_fresh_writer_epoch(Lsn::from_raw(0)).map_err(|e| herr("epoch", format!("{e:?}")))?.epoch_id;
         let (mut prev_frame, mut prev_commit) = (d("c11:genesis-frame"), d("c11:genesis-commit"));
         let mut seg = 1u64;
         let mut lsn = 0u64;
+        let mut sessions = 1usize;
         for (i, rot) in c.rotate_after.iter().enumerate() {
             let builder = WalTransactionBuilder::new(
                 epoch,
@@ -524,6 +537,13 @@ fn build_seg_log(ctx: &Ctx, c: &CaseSeg) -> Result<SegLog, Fail> {
                 store.rotate_segment(epoch).map_err(|e| herr("rotate", format!("{e:?}")))?;
                 seg += 1;
             }
+            if c.new_session_after.get(i).copied().unwrap_or(false) && i + 1 < c.rotate_after.len() {
+                store.close_epoch(epoch).map_err(|e| herr("close epoch", format!("{e:?}")))?;
+                drop(store);
+                store = FilesystemWalStore::open(&root, WalSegmentId::from_raw(seg)).map_err(|e| herr("reopen", format!("{e:?}")))?;
+                epoch = store.acquire_fresh_writer_epoch(Lsn::from_raw(lsn)).map_err(|e| herr("next epoch", format!("{e:?}")))?.epoch_id;
+                sessions += 1;
+            }
         }
         drop(store);
         let rec = recover_filesystem_store(&root, RecoveryAccessMode::ReadOnly).map_err(|e| Fail::new("C11/untampered-log-rejected", format!("multi-segment: {e:?}")))?;
@@ -534,7 +554,7 @@ fn build_seg_log(ctx: &Ctx, c: &CaseSeg) -> Result<SegLog, Fail> {
         for name in segment_files(&root) {
             files.push((format!("segments/{name}"), std::fs::read(root.join("segments").join(&name)).unwrap_or_default()));
         }
-        Ok(SegLog { files, side: read_side_files(&root), history: rec.transactions })
+        Ok(SegLog { files, side: read_side_files(&root), history: rec.transactions, sessions })
     })();
     let _ = std::fs::remove_dir_all(&root);
     r
@@ -556,6 +576,7 @@ fn file_log(bytes: &[u8]) -> Log {
 fn check_seg(ctx: &Ctx, c: &CaseSeg, probe: &mut Probe) -> Check {
     let log = build_seg_log(ctx, c)?;
     probe.class(format!("segment-files:{}", log.files.len().min(6)));
+    probe.class(format!("writer-sessions:{}", log.sessions.min(5)));
     let whole = Log { seg: log.files.iter().flat_map(|(_, b)| b.iter().copied()).collect(), side: log.side.clone(), records: Vec::new(), txns: Vec::new(), history: log.history.clone(), snaps: Vec::new(), subs: Vec::new() };
     let mut variants: Vec<(String, Vec<(String, Vec<u8>)>, Mutation)> = Vec::new();
     for (fp, m) in &c.muts {
